@@ -2,6 +2,7 @@ package shimagent
 
 //vsym:pkg github.com/theparanoids/ysshra/agent/shimagent
 //vsym:include shim/world.go
+//vsym:include shim/peek.go || shim/peek_bb.go
 //vsym:entry H11_replies_are_private
 //vsym:replay same-harness
 //vsym:expect-cover C11.private
